@@ -22,6 +22,7 @@ TupArgsQ == {"A", "B", "int", "Any"}
 UnionArgsQ == <<"A", "B", "E", "int", "None", "Lit1", "str", "T", "Any">>
 FnArgsQ == {"A", "B"}
 FnRetsQ == {"A", "B"}
+VtItemsQ == {"A", "int"}
 ExtrasQ == { Mk("Tuple3", <<Atom("A"), Atom("B"), Atom("C")>>),
              Mk("TuplePre", <<Atom("A"), Atom("B")>>),
              Mk("Fn0", <<Atom("A")>>),
@@ -39,6 +40,7 @@ TupArgsT == TupArgsQ \cup {"None", "T", "Never"}
 UnionArgsT == <<"A", "B", "E", "int", "None", "Lit1", "str", "T", "Any", "D", "float", "LitA", "TB", "Never", "ColR">>
 FnArgsT == {"A", "B", "int"}
 FnRetsT == {"A", "B", "None"}
+VtItemsT == {"A", "B", "int"}
 ExtrasT == ExtrasQ \cup { Mk("Inv", <<Mk("Inv", <<Atom("A")>>)>>),
                           Mk("Tuple2", <<Mk("Tuple2", <<Atom("A"), Atom("B")>>), Atom("int")>>),
                           Mk("TypeOf", <<Atom("ImplA")>>), Mk("TypeOf", <<Atom("Col")>>), Mk("TypeOf", <<Atom("NT")>>),
